@@ -65,7 +65,7 @@ type recEvent struct {
 func (r *runner) enc(p *plan.Plan) []byte {
 	b := p.Encode()
 	if r.dwarf {
-		b = append(b, wasmb.DegenerateDWARF()...)
+		b = append(b, wasmb.DegenerateDWARFKind(r.dwarfKind)...)
 	}
 	return b
 }
@@ -83,6 +83,7 @@ type runner struct {
 	ensureTerm bool
 	termWaits  int
 	dwarf      bool // binaries carry wasmb.DegenerateDWARF
+	dwarfKind  int
 	// implicit: these instances are created with Runtime.InstantiateWithConfig from the binary (their
 	// compilation is closed with them) while other instances of the same binary stay open
 	implicit map[int]bool
